@@ -545,6 +545,51 @@ func main() {
 		run.Notes["non_ascii_lookup_cases_checked"] = n
 	}
 
+	// 1e. non-ASCII paths under the case-insensitive matcher (outside the ASCII model, judged on
+	// the Go side only): "matches case-insensitively" is strings.ToLower on both sides, also for
+	// letters whose two cases differ in UTF-8 length (U+0130, U+1E9E, U+212A): routes / and P on
+	// one host, the request must be answered by P exactly when its lower-cased path starts with
+	// lower-cased P, by / otherwise; under the prefix matcher only byte-wise prefixes count
+	{
+		pairs := [][2]string{
+			{"/\u0130stanbul", "/istanbul/hotels"}, {"/istanbul", "/\u0130STANBUL/hotels"}, {"/STRA\u1E9EE", "/stra\u00dfe/12"},
+			{"/stra\u00dfe", "/STRA\u1E9EE/12"}, {"/\u00c4pfel", "/\u00e4PFEL/x"}, {"/\u212Aelvin", "/kelvin/x"}, {"/kelvin", "/\u212AELVIN/x"},
+			{"/caf\u00e9", "/CAF\u00c9/x"}, {"/\u0130stanbul", "/\u0131stanbul/x"}, {"/\u0130stanbul", "/\u0130stanbul/hotels"},
+			{"/\u03a3\u03a3", "/\u03c3\u03c2/x"}, {"/\u01c5x", "/\u01c6X/y"}, {"/a\u0130", "/ai/x"}, {"/a\u0130b", "/aib"}, {"/a\u0130b", "/ai"},
+		}
+		n, hit, lenDiff := 0, 0, 0
+		for _, pr := range pairs {
+			for m := 0; m < 2; m++ {
+				defs := []def{{"city.example", "/"}, {"city.example", pr[0]}}
+				t, _, err := buildTable(defs)
+				if err != nil {
+					continue
+				}
+				want := 0
+				if m == 1 && strings.HasPrefix(strings.ToLower(pr[1]), strings.ToLower(pr[0])) || m == 0 && strings.HasPrefix(pr[1], pr[0]) {
+					want = 1
+					if m == 1 {
+						hit++
+						if len(strings.ToLower(pr[0])) != len(pr[0]) || len(strings.ToLower(pr[1])) != len(pr[1]) {
+							lenDiff++
+						}
+					}
+				}
+				id, panicked, _ := lookupImpl(t, request{"city.example", false, pr[1]}, m, false)
+				n++
+				if panicked || id != want {
+					run.Violation(-1, fmt.Sprintf("non-ASCII path, matcher %s: Table.Lookup selected route %d, expected %d (the longest route path the request path starts with%s)",
+						matcherNames[m], id, want, map[int]string{0: "", 1: ", compared in lower case"}[m]),
+						map[string]interface{}{"routes": []string{"city.example/", "city.example" + pr[0]}, "request_path": pr[1], "panicked": panicked})
+				}
+			}
+		}
+		if hit < 8 || lenDiff < 4 {
+			run.Violation(-1, "non-ASCII path class lost its subject: too few pairs match case-insensitively / change length when lower-cased", map[string]int{"match": hit, "length_changing": lenDiff})
+		}
+		run.Notes["non_ascii_path_cases_checked"] = n
+	}
+
 	// 2. directed: every ordering clause with two competing routes, both orders of definition
 	type dcase struct {
 		name string
